@@ -25,3 +25,7 @@ GENERATORS.append(_tab_c03.generate)
 # C19 / C07: control-flow IR of the load-step drivers + param_index_update slot table; reference table of NonlinearSolve.py
 from . import extract_drivers as _extract_drivers   # noqa: E402
 GENERATORS.append(_extract_drivers.gen_cfg_drivers)
+
+# C02: static reference / free-name / hook-arity table of Mechanics.py
+from . import refs_c02 as _refs_c02   # noqa: E402
+GENERATORS.append(_refs_c02.generate)
